@@ -98,6 +98,7 @@ def run(K, mods=3, witness=False):
         return r
 
     for step in range(K):
+        h.tag = 'step%d' % step
         op = h.int("op%d" % step, 0, 4).v
         mi, ms = pick(h, "m%d" % step, M)
         fi, fs = pick(h, "f%d" % step, M)
